@@ -334,7 +334,7 @@ func GenTypes(t *rapid.T, o *Opts) *Spec {
 	module := Module
 	root := &Pkg{Name: rootName, Path: module + "/" + rootName}
 	subAtModuleRoot := false
-	var userTime *tinfo
+	var userTime, likeRootEnum *tinfo
 	if o.ShortModule {
 		switch rapid.IntRange(0, 6).Draw(t, "moduleForm") {
 		case 3:
@@ -387,6 +387,10 @@ func GenTypes(t *rapid.T, o *Opts) *Spec {
 			if o.StdNamedPkgs && rapid.IntRange(0, 7).Draw(t, "stdNamedPkg") == 0 {
 				sn = "time"
 			}
+			likeRoot := false
+			if o.SameNameAsRoot && rapid.IntRange(0, 7).Draw(t, "namedLikeRoot") == 0 {
+				sn, likeRoot = rootName, true
+			}
 			dup, sameName := false, 0
 			for _, p := range g.spec.Pkgs {
 				if p.Name == sn {
@@ -398,7 +402,14 @@ func GenTypes(t *rapid.T, o *Opts) *Spec {
 			if rapid.Bool().Draw(t, "subSibling") {
 				parent = module
 			}
-			if dup {
+			if dup && likeRoot {
+				if sameName > 1 {
+					continue
+				}
+				// an imported package named like the analysed one (models imports legacy/models)
+				parent = module + "/legacy"
+				o.class("pkg:imported_package_named_like_the_analysed_one")
+			} else if dup {
 				if !o.SameNamePkgs || sameName > 1 || sn == rootName {
 					continue
 				}
@@ -421,6 +432,12 @@ func GenTypes(t *rapid.T, o *Opts) *Spec {
 			// insert after root so that later subs can be imported by earlier ones? keep simple: subs do not import each other
 			g.spec.Pkgs = append(g.spec.Pkgs, sp)
 			g.fillPackage(sp, sp.Files[0], sp.Files[0], rapid.IntRange(1, 4).Draw(t, "nSubDecls"), false)
+			if likeRoot {
+				// make sure the analysed package uses an enum of its namesake
+				if e := g.addEnum(sp, sp.Files[0], sp.Files[0]); e != nil && e.exported {
+					likeRootEnum = e
+				}
+			}
 			if sn == "time" {
 				// a user package that is itself named time, with a named type over the standard time.Time
 				name := g.freshName(sp, "userTimeName", true) + "Stamp"
@@ -456,6 +473,10 @@ func GenTypes(t *rapid.T, o *Opts) *Spec {
 		h := &Decl{Kind: KStruct, Name: g.freshName(root, "diamondHolder", true), Fields: []*Field{
 			{Name: "Direct", Type: g.refTo(root, diamond[0])}, {Name: "Through", Type: g.refTo(root, diamond[1])}}}
 		g.newDecl(root, root.Files[0], h, &tinfo{cat: "struct", hasUnion: diamond[0].hasUnion || diamond[0].cat == "union"})
+	}
+	if likeRootEnum != nil {
+		h := &Decl{Kind: KStruct, Name: g.freshName(root, "likeRootHolder", true), Fields: []*Field{{Name: "Kind", Type: g.refTo(root, likeRootEnum)}, {Name: "N", Type: Basic("int")}}}
+		g.newDecl(root, root.Files[0], h, &tinfo{cat: "struct"})
 	}
 	if userTime != nil {
 		h := &Decl{Kind: KStruct, Name: g.freshName(root, "userTimeHolder", true), Fields: []*Field{{Name: "At", Type: g.refTo(root, userTime)}, {Name: "N", Type: Basic("int")}}}
